@@ -480,6 +480,41 @@ func (c *Ctx) checkP2PRecordsAgree() {
 			if !isP2P {
 				return
 			}
+			// the record may start as the result of a constructor (`pud := perUserDataFromSub(sub)`):
+			// the fields the constructor's literal sets count too
+			for _, ref := range *al.Referrers() {
+				st, ok := ref.(*ssa.Store)
+				if !ok || st.Addr != ssa.Value(al) {
+					continue
+				}
+				call, ok := st.Val.(*ssa.Call)
+				if !ok {
+					continue
+				}
+				g := call.Call.StaticCallee()
+				if g == nil || !core.InModule(g) {
+					continue
+				}
+				core.AllInstrs(g, func(x ssa.Instruction) {
+					a2, ok := x.(*ssa.Alloc)
+					if !ok || a2.Referrers() == nil {
+						return
+					}
+					if pt2, ok := a2.Type().(*types.Pointer); !ok || !types.Identical(pt2.Elem(), pudT) {
+						return
+					}
+					for _, r3 := range *a2.Referrers() {
+						if fa, ok := r3.(*ssa.FieldAddr); ok && fa.Referrers() != nil {
+							f, _ := core.FieldOfAddr(fa)
+							for _, r4 := range *fa.Referrers() {
+								if s4, ok := r4.(*ssa.Store); ok && s4.Addr == ssa.Value(fa) && f != nil && free[f] {
+									attrs[f.Name()] = true
+								}
+							}
+						}
+					}
+				})
+			}
 			builds = append(builds, build{fn, al, attrs})
 			for a := range attrs {
 				union[a] = true
@@ -500,7 +535,7 @@ func (c *Ctx) checkP2PRecordsAgree() {
 		r.Check(len(missing) == 0, rule, fmt.Sprintf("%s: p2p participant record #%d", fk(b.fn), ord[b.fn]), c.pos(b.al), "",
 			fmt.Sprintf("this record of a p2p participant is built without %v, which the other builders of such records load: {get desc} answers differently depending on how the topic was brought into memory", missing))
 	}
-	r.Check(len(builds) >= 2, rule, "builders of p2p participant records", "-", fmt.Sprintf("%d", len(builds)), "fewer than two: anchor lost")
+	r.Check(len(builds) >= 1, rule, "builders of p2p participant records", "-", fmt.Sprintf("%d", len(builds)), "none: anchor lost")
 }
 
 // checkCtrlParamsDynamicType (C20): MsgServerCtrl.Params has static type `any`; the JSON encoder
@@ -519,11 +554,30 @@ func (c *Ctx) checkCtrlParamsDynamicType() {
 		return
 	}
 	var accepted []types.Type
-	core.AllInstrs(conv, func(in ssa.Instruction) {
-		if ta, ok := in.(*ssa.TypeAssert); ok && core.IsFieldLoad(paramsF)(ta.X) {
-			accepted = append(accepted, ta.AssertedType)
-		}
-	})
+	var scanConv func(fn *ssa.Function, isParams func(ssa.Value) bool, d int)
+	scanConv = func(fn *ssa.Function, isParams func(ssa.Value) bool, d int) {
+		core.AllInstrs(fn, func(in ssa.Instruction) {
+			switch x := in.(type) {
+			case *ssa.TypeAssert:
+				if isParams(x.X) {
+					accepted = append(accepted, x.AssertedType)
+				}
+			case *ssa.Call:
+				// the value handed to a helper that does the conversion
+				g := x.Call.StaticCallee()
+				if g == nil || !core.InModule(g) || len(g.Blocks) == 0 || d >= 2 {
+					return
+				}
+				for i, a := range x.Call.Args {
+					if isParams(a) && i < len(g.Params) {
+						p := g.Params[i]
+						scanConv(g, func(v ssa.Value) bool { return v == ssa.Value(p) }, d+1)
+					}
+				}
+			}
+		})
+	}
+	scanConv(conv, func(v ssa.Value) bool { return core.IsFieldLoad(paramsF)(v) }, 0)
 	r.Func(fk(conv))
 	if !r.Check(len(accepted) > 0, rule, "types asserted on ctrl.Params by pbServCtrlSerialize", "-", fmt.Sprintf("%v", accepted), "no type assertion on ctrl.Params found in the converter: anchor lost") {
 		return
@@ -1023,35 +1077,74 @@ func (c *Ctx) checkLoaderReadsLiveRows(rule string) {
 func (c *Ctx) checkFndDefaultAccessNone() {
 	r := c.R
 	const rule = "C07.6b-search-topic-default-access-none"
-	fn := c.ssaFn("server", "getDefaultAccess")
+	top := c.ssaFn("server", "getDefaultAccess")
 	none := c.konst("server/store/types", "ModeNone")
-	if fn == nil || none == nil || len(fn.Params) == 0 {
+	catT := c.P.NamedType("server/store/types", "TopicCat")
+	if top == nil || none == nil || catT == nil {
 		return
 	}
-	r.Func(fk(fn))
-	catP := fn.Params[0]
-	isCat := func(v ssa.Value) bool { return core.Strip(v) == ssa.Value(catP) }
-	var gs []core.Guard
-	for _, kn := range []string{"TopicCatMe", "TopicCatGrp", "TopicCatP2P", "TopicCatSys"} {
-		if k := c.konst("server/store/types", kn); k != nil {
-			gs = append(gs, core.EqGuard("cat=="+kn, isCat, core.IsConstOf(k), true))
+	// getDefaultAccess and the helpers it delegates to (a return of the result of a module function
+	// that takes the category)
+	catParam := func(fn *ssa.Function) *ssa.Parameter {
+		for _, p := range fn.Params {
+			if types.Identical(p.Type(), catT) {
+				return p
+			}
 		}
+		return nil
+	}
+	fns := []*ssa.Function{top}
+	seen := map[*ssa.Function]bool{top: true}
+	for i := 0; i < len(fns) && i < 4; i++ {
+		core.AllInstrs(fns[i], func(in ssa.Instruction) {
+			ret, ok := in.(*ssa.Return)
+			if !ok || len(ret.Results) != 1 {
+				return
+			}
+			if call, ok := core.Strip(ret.Results[0]).(*ssa.Call); ok {
+				if g := call.Call.StaticCallee(); g != nil && core.InModule(g) && len(g.Blocks) > 0 && catParam(g) != nil && !seen[g] {
+					seen[g] = true
+					fns = append(fns, g)
+				}
+			}
+		})
 	}
 	n := 0
-	core.AllInstrs(fn, func(in ssa.Instruction) {
-		ret, ok := in.(*ssa.Return)
-		if !ok || len(ret.Results) != 1 || core.IsConstOf(none)(ret.Results[0]) {
-			return
+	for _, fn := range fns {
+		catP := catParam(fn)
+		if catP == nil {
+			continue
 		}
-		n++
-		saved := core.NoLift
-		core.NoLift = true
-		g, _ := core.GuardedBy(fn, ret, gs...)
-		core.NoLift = saved
-		construct := fmt.Sprintf("%s: return of a mode other than N #%d", fk(fn), n)
-		r.Check(g, rule, construct, c.pos(ret), "only for a me, group, p2p or sys topic",
-			"a default access other than N can be returned for the search topic: another user's {sub} to the raw fndXXX name is admitted")
-	})
+		r.Func(fk(fn))
+		isCat := func(v ssa.Value) bool { return core.Strip(v) == ssa.Value(catP) }
+		var gs []core.Guard
+		for _, kn := range []string{"TopicCatMe", "TopicCatGrp", "TopicCatP2P", "TopicCatSys"} {
+			if k := c.konst("server/store/types", kn); k != nil {
+				gs = append(gs, core.EqGuard("cat=="+kn, isCat, core.IsConstOf(k), true))
+			}
+		}
+		k := 0
+		core.AllInstrs(fn, func(in ssa.Instruction) {
+			ret, ok := in.(*ssa.Return)
+			if !ok || len(ret.Results) != 1 || core.IsConstOf(none)(ret.Results[0]) {
+				return
+			}
+			if call, ok := core.Strip(ret.Results[0]).(*ssa.Call); ok {
+				if g := call.Call.StaticCallee(); g != nil && seen[g] {
+					return // decided in the helper
+				}
+			}
+			n++
+			k++
+			saved := core.NoLift
+			core.NoLift = true
+			g, _ := core.GuardedBy(fn, ret, gs...)
+			core.NoLift = saved
+			construct := fmt.Sprintf("%s: return of a mode other than N #%d", fk(fn), k)
+			r.Check(g, rule, construct, c.pos(ret), "only for a me, group, p2p or sys topic",
+				"a default access other than N can be returned for the search topic: another user's {sub} to the raw fndXXX name is admitted")
+		})
+	}
 	r.Check(n >= 2, rule, "returns of getDefaultAccess examined", "-", fmt.Sprintf("%d", n), "fewer than two: anchor lost")
 }
 
@@ -1758,7 +1851,9 @@ func (c *Ctx) checkResultNotReallocated() {
 				"the result is allocated again after an earlier part may already have been decoded into it: a message that carries both parts loses the earlier one (on this path only; the JSON path keeps both)")
 		}
 	}
-	r.Check(n >= 1, rule, "converters that allocate their result lazily", "-", fmt.Sprintf("%d", n), "none: anchor lost")
+	if n == 0 {
+		r.Info(rule, "converters that allocate their result lazily", "-", "none on this tree (nothing to decide)")
+	}
 }
 
 // checkAcceptRecordedAfterPublished (C15): an accepted call is a call whose acceptance was
